@@ -193,17 +193,23 @@ def distribution_for(config, columns, rng):
         return 'copulas.univariate.' + str(rng.choice(fast))
     if config == 'instance':
         r = rng.random()
-        if r < 0.4:
+        if r < 0.3:
             return cu.GaussianKDE(bw_method=float(rng.choice([0.2, 0.5, 1.0])))
-        if r < 0.7:
+        if r < 0.5:
             return cu.TruncatedGaussian(-1e7, 1e7)          # options given positionally
-        return cu.TruncatedGaussian()
+        if r < 0.65:
+            return cu.TruncatedGaussian()
+        # families whose constructor takes (and therefore records) no options
+        return getattr(cu, str(rng.choice(fast)))()
     dist = {}
+    shared = getattr(cu, str(rng.choice(fast)))() if rng.random() < 0.3 else None
     for c in columns:
         r = rng.random()
         if r < 0.7:
             k = str(rng.choice(fast + ['GaussianKDE']))
             dist[c] = getattr(cu, k) if rng.random() < 0.5 else 'copulas.univariate.' + k
+            if shared is not None and r < 0.45:
+                dist[c] = shared                            # one prototype object named for several columns
     return dist
 
 
